@@ -991,6 +991,9 @@ class Job:
         return False
 
     def __getstate__(self):
+        # Make sure that the state point object exists before it is copied,
+        # so that it is shared with (rather than re-created by) the copy.
+        _ = self.statepoint
         state = dict(self.__dict__)
         # Locks are not pickleable and must be removed from the state
         del state["_lock"]
